@@ -26,6 +26,7 @@ def dispatch (line : String) : String :=
   | "mrg" :: rest => Mrg.handle rest
   | "sch" :: rest => Sch.handle rest
   | "blk" :: rest => Blk.handle rest
+  | "blkc" :: rest => Blk.handleCuts rest
   | _ => "bad-request"
 
 partial def loop (h : IO.FS.Stream) (out : IO.FS.Stream) : IO Unit := do
